@@ -108,8 +108,8 @@ type Cluster struct {
 	// AnswerRank is the default priority class of answer actors.
 	AnswerRank int
 	// MetaVersionCap lowers the metadata response version (0 = use the request's).
-	Produced []ProduceEvent
-	Requests []string // kinds of all requests seen, in arrival order per decision
+	Produced    []ProduceEvent
+	Requests    []string // kinds of all requests seen, in arrival order per decision
 	FaultsTaken []string
 
 	Handlers map[string]func(r *Req) []gx.Variant // extra request kinds registered by rigs
